@@ -39,6 +39,9 @@ def special_documents():
     # (a second, different definition under an already defined reference name is an error on the wiki itself
     #  - "defined multiple times with different content" - and outside ordinary content: not generated)
     out.append(("two_links_to_one_url_in_a_reference", "w1<ref>[http://x.com w2 w3] w4 [http://x.com w5 w6]</ref>.\n"))
+    out.append(("lists_in_neighbouring_cells", "{|\n|-\n|\n* w1\n* w2\n* w3\n* w4\n* w5\n* w6\n|\n* w7\n* w8\n|}\n"))
+    out.append(("same_url_in_two_references", "w1<ref>[http://x.com w2 w3]</ref> w4<ref>[http://x.com w5 w6] w7</ref> w8.\n"))
+    out.append(("indented_line_inside_a_paragraph", "== w1 ==\nw2 w3\n: w4 w5 ''w6''\nw7 w8\n\nw9\n"))
     out.append(("equal_indented_lines_in_one_paragraph", "== w1 ==\nw2 w3\n: w4 w5\nw6 w7\n: w4 w5\nw8 w9\n\nw10 w11\n"))
     out.append(("caption_of_a_single_cell_table", "w1\n\n{|\n|+ w2 w3\n|-\n| w4 w5\n|}\n\nw6\n"))
     return out
